@@ -61,8 +61,12 @@ def cases(rng, tier, shard, nshards):
             y[:w] = np.linspace(base * 6.0, base * 3.0, w)
             x = np.arange(1, len(y) + 1, dtype=float)
             pts, meta = np.ascontiguousarray(np.column_stack((x, y))), {'family': 'stairs-creeping-up'}
+        lay = None
+        if rng.random() < 0.03:
+            # integral coordinates of magnitude 1e9..1e10 as int64 (bytes against microseconds)
+            pts, meta, lay = gen.large_int_curve(rng, nmax=60), {'family': 'large-int64'}, 'i64'
         c = config(rng, len(pts))
-        c.update({'points': pts, 'family': meta['family'], 'layout': gen.pick_layout(rng, pts)})
+        c.update({'points': pts, 'family': meta['family'], 'layout': lay or gen.pick_layout(rng, pts)})
         if rng.random() < 0.3:       # history: a second pipeline configuration on the SAME array
             c['follow'] = config(rng, len(pts))
         yield c
